@@ -16,17 +16,7 @@
 EXTENDS X86SpaceLib, Json, IOUtils
 Recs == JsonDeserialize(IOEnv.TRACE)
 
-\* ---- the lifted list as a state transformer -------------------------------------
-FlagIds == <<"cf", "pf", "af", "zf", "nf", "df", "of">>            \* miasmX names, in the order of FlagNames (nf = SF)
-SegIds == {"ds", "es", "ss", "cs"}
-Modelled == {RegNames[k] : k \in 1..8} \cup {FlagIds[k] : k \in 1..7} \cup SegIds
-FlagGet(fl, k) == CASE k = 1 -> fl.cf [] k = 2 -> fl.pf [] k = 3 -> fl.af [] k = 4 -> fl.zf [] k = 5 -> fl.sf [] k = 6 -> fl.df [] k = 7 -> fl.of
-EnvOf(s, extra) ==
-   [id |-> TLCEval([n \in Modelled \cup extra |->
-              IF \E k \in 1..8 : RegNames[k] = n THEN s.reg[CHOOSE k \in 1..8 : RegNames[k] = n]
-              ELSE IF \E k \in 1..7 : FlagIds[k] = n THEN <<FlagGet(s.fl, CHOOSE k \in 1..7 : FlagIds[k] = n)>>
-              ELSE <<0, 0, 0, 0, 0, 0, 0, 0, 0, 0, 0, 0, 0, 0, 0, 0>>]),          \* flat segmentation: selectors / bases 0
-    seed |-> s.seed, over |-> s.over]
+\* ---- the lifted list as a state transformer (FlagIds, Modelled, EnvOf, Loose: X86SpaceLib) ----
 \* a flag receives 0 or 1; any other value is reported as 3
 FlagVal(v) == IF IsZero(v) THEN 0 ELSE IF v[1] = 1 /\ \A j \in 2..Len(v) : v[j] = 0 THEN 1 ELSE 3
 DstName(a) == IF a.a[1].k = "id" THEN a.a[1].n ELSE ""
@@ -76,31 +66,6 @@ SubCls(i, s) ==
 
 \* ---- the verdict ---------------------------------------------------------------------------
 IsFlag(n) == \E k \in 1..7 : FlagIds[k] = n
-\* IR!WellTyped without the width-agreement rules (operands of a binary operator, arms of a condition): such trees are
-\* reported as C04.welltyped but still have a value under IR!Eval (operands are extended / truncated to the width of the first)
-RECURSIVE Loose(_)
-Loose(e) ==
-  CASE e.k = "int" -> e.w >= 1 /\ IsBV(e.v, e.w)
-    [] e.k = "id" -> e.w >= 1
-    [] e.k = "mem" -> /\ e.w >= 8 /\ e.w % 8 = 0 /\ Len(e.a) = 1 /\ Loose(e.a[1]) /\ e.a[1].k # "aff" /\ Width(e.a[1]) >= 1
-                      /\ \A j \in 1..Len(e.g) : Loose(e.g[j]) /\ e.g[j].k # "aff"
-    [] e.k = "op" -> /\ Len(e.a) >= 1
-                     /\ \A j \in 1..Len(e.a) : Loose(e.a[j]) /\ e.a[j].k # "aff" /\ Width(e.a[j]) >= 1
-                     /\ (e.o \in ACOps \cup {"=="} => Len(e.a) >= 2)
-                     /\ (e.o = "-" => Len(e.a) \in {1, 2})
-                     /\ (e.o \in Shifts \cup {"=="} => Len(e.a) = 2)
-                     /\ (e.o \in {"parity", "!"} => Len(e.a) = 1)
-                     /\ (e.o \in DivOps \cup RcOps => Len(e.a) = 3)
-                     /\ (e.o \in MulOps => Len(e.a) = 2)
-    [] e.k = "cond" -> Len(e.a) = 3 /\ \A j \in 1..3 : Loose(e.a[j]) /\ e.a[j].k # "aff" /\ Width(e.a[j]) >= 1
-    [] e.k = "slice" -> /\ Len(e.a) = 1 /\ Loose(e.a[1]) /\ e.a[1].k # "aff"
-                        /\ 0 <= e.lo /\ e.lo < e.hi /\ e.hi <= Width(e.a[1])
-    [] e.k = "compose" -> /\ Len(e.a) >= 1 /\ Len(e.a) = Len(e.s)
-                          /\ \A j \in 1..Len(e.a) : /\ Loose(e.a[j]) /\ e.a[j].k # "aff"
-                                                    /\ Width(e.a[j]) >= e.s[j][2] - e.s[j][1]
-                                                    /\ e.s[j][1] >= 0 /\ e.s[j][2] > e.s[j][1]
-                          /\ Tiles(e.s, Width(e))
-    [] OTHER -> FALSE
 AffWidths(a) == /\ (a.a[1].k = "id" /\ ~IsFlag(a.a[1].n) => Width(a.a[2]) = a.a[1].w)       \* flags take any width (value must be 0/1)
                 /\ (a.a[1].k = "mem" => Width(a.a[2]) = a.a[1].w /\ a.a[1].w \in {8, 16, 32})
 AffOK(a) == a.k = "aff" /\ WellTyped(a) /\ AffWidths(a)
